@@ -159,6 +159,88 @@ def _strip_indent(line: str, cols: int):
     return " " * pad + line[i:]
 
 
+def _col(prefix: str) -> int:
+    col = 0
+    for ch in prefix:
+        col += 4 - col % 4 if ch == "\t" else 1
+    return col
+
+
+def _remove_cols(line: str, cols: int) -> str:
+    """drop leading container-prefix / blank characters up to [cols] columns; a tab that straddles
+    the boundary leaves its remaining width as spaces"""
+    col = 0
+    i = 0
+    while i < len(line) and col < cols and line[i] in " \t>":
+        col += 4 - col % 4 if line[i] == "\t" else 1
+        i += 1
+    return " " * max(0, col - cols) + line[i:]
+
+
+def _expand(s: str, start_col: int = 0) -> str:
+    out = []
+    col = start_col
+    for ch in s:
+        if ch == "\t":
+            w = 4 - col % 4
+            out.append(" " * w)
+            col += w
+        else:
+            out.append(ch)
+            col += 1
+    return "".join(out)
+
+
+def _strip_quotes(e: str, nq: int):
+    """position in the tab-expanded line after nq block quote markers (each with its optional
+    following blank), or None if the line does not carry them"""
+    i = 0
+    for _ in range(nq):
+        while i < len(e) and e[i] == " ":
+            i += 1
+        if i >= len(e) or e[i] != ">":
+            return None
+        i += 1
+        if i < len(e) and e[i] == " ":
+            i += 1
+    return i
+
+
+def _fence_indent_check(t, lines, anc, where):
+    """CommonMark: each content line loses as many columns of indentation as the opening fence has
+    (inside its containers).  Decided here for fences nested in block quotes only, or in lists only."""
+    containers = [a for a in anc if a in ("blockquote_open", "list_item_open")]
+    nq = containers.count("blockquote_open")
+    if nq and nq != len(containers):
+        return None
+    first = _expand(lines[t.map[0]])
+    j = first.find(t.markup)
+    if nq:
+        if set(first[:j]) - set(" >") or first[:j].count(">") != nq:
+            return None
+        base = _strip_quotes(first, nq)
+        if base is None:
+            return None
+    else:
+        base = 0
+    f = j - base
+    body = lines[t.map[0] + 1:t.map[1]]
+    cl = t.content.split("\n")[:-1] if t.content.endswith("\n") else []
+    for k, c in enumerate(cl[:len(body)]):
+        e = _expand(body[k])
+        st = _strip_quotes(e, nq) if nq else 0
+        if st is None:
+            continue
+        n = 0
+        while n < f and st + n < len(e) and e[st + n] == " ":
+            n += 1
+        exp = e[st + n:]
+        got = _expand(c, st + n)
+        if got != exp:
+            return f"{where}: content line {k} is {c!r}; the source line {body[k]!r} minus the fence's {f} columns of indentation is {exp!r}"
+    return None
+
+
 def c08(tokens, norm_src: str) -> str | None:
     lines = norm_src.split("\n")
 
@@ -166,8 +248,13 @@ def c08(tokens, norm_src: str) -> str | None:
         return lines[m[0]:m[1]]
 
     def walk(ts, prefix_ok=True):
+        anc = []
         for i, t in enumerate(ts):
             where = f"[{i}] {t.type} map={t.map}"
+            if t.nesting == -1 and anc:
+                anc.pop()
+            if t.nesting == 1:
+                anc.append(t.type)
             if t.type in ("code_block", "fence", "html_block") and t.map:
                 body = src_lines(t.map)
                 content = t.content.split("\n")
@@ -192,6 +279,10 @@ def c08(tokens, norm_src: str) -> str | None:
                         rest = re.sub(r"^[ \t>]*(?:(?:[-+*]|\d{1,9}[.)])[ \t]+)*[ \t>]*", "", s)
                         if rest.strip(" \t"):
                             return f"{where}: content line {k} is empty but source line is {s!r}"
+            if t.type == "fence" and t.map and t.markup in lines[t.map[0]]:
+                r = _fence_indent_check(t, lines, anc, where)
+                if r:
+                    return r
             if t.type == "fence" and t.map:
                 first = lines[t.map[0]]
                 if t.markup not in first or len(set(t.markup)) != 1 or t.markup[0] not in "`~" or len(t.markup) < 3:
